@@ -277,4 +277,85 @@ theorem foldlM_change (newkv : Map) (L : List (Str × Str)) (h : L.all PairOk = 
       simp [commaToks, substArgs, hf, tokOf]
 
 
+/-! ### the nested tokenizer never splits inside brackets -/
+
+/-- `(` minus `)` over a text -/
+def depthSum (t : Str) : Int := (t.map delta).sum
+
+/-- every delimiter of the text is inside brackets (the count, `d` so far, is not 0 there) -/
+def delimsInside (isD : Char → Bool) : Int → Str → Bool
+  | _, [] => true
+  | d, c :: r => if isD c then d != 0 && delimsInside isD d r else delimsInside isD (d + delta c) r
+
+theorem depthSum_cons (c : Char) (t : Str) : depthSum (c :: t) = delta c + depthSum t := by
+  simp [depthSum]
+
+theorem nested_spec (isD : Char → Bool) (hbr : ∀ c, isD c = true → delta c = 0) (s : Str) :
+    (∀ b toks, nested isD false b s = some toks →
+        ∀ t ∈ toks, depthSum t = 0 ∧ delimsInside isD 0 t = true ∧ t ≠ []) ∧
+    (∀ b toks, nested isD true b s = some toks →
+        ∃ t ts, toks = t :: ts ∧ b + depthSum t = 0 ∧ delimsInside isD b t = true ∧
+          ∀ t' ∈ ts, depthSum t' = 0 ∧ delimsInside isD 0 t' = true ∧ t' ≠ []) := by
+  induction s with
+  | nil =>
+    constructor
+    · intro b toks h; simp [nested] at h; subst h; intro t ht; cases ht
+    · intro b toks h
+      simp only [nested] at h
+      split at h
+      · rename_i hb; simp at h; subst h
+        have : b = 0 := by simpa using hb
+        exact ⟨[], [], rfl, by simp [depthSum, this], by simp [delimsInside], fun t' ht' => by cases ht'⟩
+      · cases h
+  | cons c rest ih =>
+    obtain ⟨ihF, ihT⟩ := ih
+    constructor
+    · intro b toks h
+      simp only [nested] at h
+      split at h
+      · exact ihF b toks h
+      · rename_i hc
+        cases hn : nested isD true (delta c) rest with
+        | none => simp [hn] at h
+        | some toks' =>
+          simp [hn] at h; subst h
+          obtain ⟨t, ts, rfl, h1, h2, h3⟩ := ihT _ _ hn
+          intro t' ht'
+          simp only [pushFront, List.mem_cons] at ht'
+          rcases ht' with rfl | ht'
+          · refine ⟨by rw [depthSum_cons]; exact h1, ?_, by simp⟩
+            simp only [delimsInside, hc, Bool.false_eq_true, if_false, Int.zero_add]; exact h2
+          · exact h3 t' ht'
+    · intro b toks h
+      simp only [nested] at h
+      split at h
+      · rename_i hc
+        split at h
+        · rename_i hb
+          have hb0 : b = 0 := by simpa using hb
+          cases hn : nested isD false 0 rest with
+          | none => simp [hn] at h
+          | some toks' =>
+            simp [hn] at h; subst h
+            exact ⟨[], toks', rfl, by simp [depthSum, hb0], by simp [delimsInside], ihF 0 toks' hn⟩
+        · rename_i hb
+          cases hn : nested isD true b rest with
+          | none => simp [hn] at h
+          | some toks' =>
+            simp [hn] at h; subst h
+            obtain ⟨t, ts, rfl, h1, h2, h3⟩ := ihT _ _ hn
+            refine ⟨c :: t, ts, rfl, ?_, ?_, h3⟩
+            · rw [depthSum_cons, hbr c hc]; omega
+            · simp only [delimsInside, hc, if_true, Bool.and_eq_true, bne_iff_ne, ne_eq]
+              exact ⟨by simpa using hb, h2⟩
+      · rename_i hc
+        cases hn : nested isD true (b + delta c) rest with
+        | none => simp [hn] at h
+        | some toks' =>
+          simp [hn] at h; subst h
+          obtain ⟨t, ts, rfl, h1, h2, h3⟩ := ihT _ _ hn
+          refine ⟨c :: t, ts, rfl, ?_, ?_, h3⟩
+          · rw [depthSum_cons]; omega
+          · simp only [delimsInside, hc, Bool.false_eq_true, if_false]; exact h2
+
 end Bpp.Text.Keyval
